@@ -1,6 +1,6 @@
 """C11 -- clean exit: once a run is over, nothing it started is still running."""
 
-from . import runrules, shutrules
+from . import common, runrules, shutrules
 
 
 def check(ctx, rep):
@@ -14,7 +14,7 @@ def check(ctx, rep):
         "reached while the first CancelledError is being handled (an enclosing scheduler that is cancelled "
         "itself while it waits cancels its tasks again: three levels of nesting, cancellation that takes "
         "time); a third delivery meets the same code in the same state. R11.3 every .cancel() of the package "
-        "is part of cancel-all-then-await-unbounded (a task is never cancelled and then abandoned).")
+        "is part of cancel-all-then-await-unbounded (a task is never cancelled and then abandoned). R11.4 (= R07.1) wrapper typestate, cancellation path included. R11.5 (= R14.4) a cancelled activation is left by the CancelledError it received.")
     rep.declined = ["job code that swallows CancelledError (T9)"]
     rep.trusted = ["T1 asyncio.wait does not cancel its argument when cancelled", "T3", "T9"]
     runrules.exit_discipline(ctx, rep, "R11.1", "R11.1", "R11.1")
@@ -22,3 +22,5 @@ def check(ctx, rep):
     shutrules.bounded_then_cancel(ctx, rep, "R11.1", "R11.1r")
     shutrules.cancellation_edges(ctx, rep, "R11.2")
     shutrules.single_cancel_model(ctx, rep, "R11.3")
+    common.wrap_typestate(ctx, rep, "R11.4")
+    shutrules.cancellation_propagates(ctx, rep, "R11.5")
